@@ -60,6 +60,8 @@ func caseFn(stream string) func(c vctx, idx int, base string) {
 		return runIdxCase
 	case sizeStream:
 		return runSizeCase
+	case limitStream:
+		return runLimitCase
 	}
 	return nil
 }
@@ -613,6 +615,8 @@ func runStages(c *verdict.Ctx) {
 	runStage(c, "rawgroup", ng, cpu, base)
 	runStage(c, idxStream, envInt("VERIF_C15_IDX_N", c.N(150, 4000)), 2*cpu, base)
 	runStage(c, sizeStream, envInt("VERIF_C15_SIZE_N", c.N(400, 8000)), 2*cpu, base)
+	nl := envInt("VERIF_C15_LIMIT_N", c.N(32, 320))
+	runStage(c, limitStream, nl, cpu, base)
 
 	if c.Violations() > 0 && c.Counter("process_crashes_of_the_code_under_test") > 0 {
 		return // families may legitimately have observed nothing if their cases died
@@ -633,10 +637,13 @@ func runStages(c *verdict.Ctx) {
 	if nb > 0 && c.Counter("big_synced_writes_with_fsync_hook_hit") == 0 {
 		c.HarnessError("C15a big-record family observed nothing: no synced write was ever seen at the autofile.synced point")
 	}
-	if envInt("VERIF_C15_IDX_N", 1) > 0 && (c.Counter("rotations_to_index_of_4_or_more_digits") == 0 || c.Counter("idx_starts_with_files_of_4_or_more_digits") == 0) {
+	if envInt("VERIF_C15_IDX_N", 150) >= 100 && (c.Counter("rotations_to_index_of_4_or_more_digits") == 0 || c.Counter("idx_starts_with_files_of_4_or_more_digits") == 0) {
 		c.HarnessError("C15a index-boundary family observed nothing: no rotation to a 4-digit index followed by a restart happened")
 	}
-	if envInt("VERIF_C15_SIZE_N", 1) > 0 && (c.Counter("size_files_pruned_by_the_ticker") == 0 || c.Counter("size_cases_with_head_at_or_over_total_limit") == 0) {
+	if nl >= 32 && (c.Counter("limit_records_exactly_at_the_writer_limit") == 0 || c.Counter("limit_records_refused_at_write") == 0) {
+		c.HarnessError("C15a writer-limit family observed nothing: no record exactly at the writer's limit was accepted, or none above it was refused")
+	}
+	if envInt("VERIF_C15_SIZE_N", 400) >= 100 && (c.Counter("size_files_pruned_by_the_ticker") == 0 || c.Counter("size_cases_with_head_at_or_over_total_limit") == 0) {
 		c.HarnessError("C15a size-limit family observed nothing: the ticker never pruned, or no head reached the total limit")
 	}
 }
